@@ -496,13 +496,26 @@ Definition skipped : list nat := Eval vm_compute in skipped_rows built States.ar
 Definition covered : list nat := Eval vm_compute in covered_rows built States.arows.
 Definition nucleic_covered : list (nbase * bool * bool) := Eval vm_compute in covered_nrows built States.nrows.
 
-Theorem state_charge : check_arows built known_exceptions States.arows = true.
+(* TOL = 1e-3 e is pdb2pqr's own tolerance; the _exact variants (tolerance 0) feed the
+   all-sizes total/strand theorems *)
+(* the excluded rows are exactly the states named here *)
+Definition exception_names : list sname := {coq_list(exception_names(a, ff), 6)}.
+Theorem exceptions_named : check_exception_names known_exceptions exception_names States.arows = true.
 Proof. vm_compute. reflexivity. Qed.
 
-Theorem strand_facts : check_strand built States.nrows = true.
+Theorem state_charge : check_arows TOL built known_exceptions States.arows = true.
 Proof. vm_compute. reflexivity. Qed.
 
-Theorem water_neutral : check_water built States.wat_id States.wat_atoms = true.
+Theorem state_exact : check_arows 0 built known_exceptions States.arows = true.
+Proof. vm_compute. reflexivity. Qed.
+
+Theorem strand_facts : check_strand TOL true built States.nrows = true.
+Proof. vm_compute. reflexivity. Qed.
+
+Theorem strand_exact : check_strand 0 false built States.nrows = true.
+Proof. vm_compute. reflexivity. Qed.
+
+Theorem water_neutral : check_water 0 built States.wat_id States.wat_atoms = true.
 Proof. vm_compute. reflexivity. Qed.
 """
         write_if_changed(GEN / f"StatesFF_{ff}.v", t)
@@ -513,6 +526,16 @@ Proof. vm_compute. reflexivity. Qed.
 #   C02-F1  PARSE.names overlays the generic neutral C-terminal backbone BKC (N -0.4, H +0.4,
 #           CA 0) on PRO, which has no amide H and keeps CD +0.28: NEUTRAL-CPRO sums to -0.12
 KNOWN_EXCEPTIONS = {"PARSE": [("PRO", "PRO", "NC")]}
+
+
+def exception_names(arows, ff):
+    out = []
+    for k in exception_keys(arows, ff):
+        r = arows[k]
+        nm = f"({PREFIX_OF[r['prefix']]}, {coq_base(r['base'])})"
+        if nm not in out:
+            out.append(nm)
+    return out
 
 
 def exception_keys(arows, ff):
